@@ -21,7 +21,11 @@ impl Lc {
 /// identity of the monomial 1 (Mono::one); neutral for the product (Kani obligations 'one-is-neutral' of the mono_* harnesses)
 pub uninterp spec fn mone() -> int;
 #[verifier::external_body] pub proof fn ax_xm_one(x: int) ensures xm(x, mone()) == x, xm(mone(), x) == x {}
+/// unit monomials (Mono::is_unit / inv): y is the inverse of x iff x y = 1; proved for Var / Var2 / Var3 by the Kani mono_* harnesses? NO — ASSUMED here
+pub uninterp spec fn munit(x: int) -> bool;
 impl GenK {
+    #[verifier::external_body] pub fn is_unit(&self) -> (r: bool) ensures r == munit(self.k@) { unimplemented!() }
+    #[verifier::external_body] pub fn inv(&self) -> (r: Option<GenK>) ensures r.is_some() == munit(self.k@), r.is_some() ==> xm(self.k@, r.unwrap().k@) == mone() { unimplemented!() }
     #[verifier::external_body] pub fn one() -> (r: GenK) ensures r.k@ == mone() { unimplemented!() }
     #[verifier::external_body] pub fn is_one(&self) -> (r: bool) ensures r == (self.k@ == mone()) { unimplemented!() }
 }
@@ -155,7 +159,35 @@ impl PolyBase {
     //@expect pub fn coeff(&self, x: &X) -> &R;
     //@expect pub fn nterms(&self) -> usize;
     pub fn coeff(&self, x: &GenK) -> (r: &ER) requires self.data.wf() ensures r.v() == self.at(x.k@) { self.data.coeff(x) }
-    pub fn nterms(&self) -> (r: usize) ensures self.data.data.m@.dom().finite(), r == self.data.data.m@.dom().len() { self.data.nterms() }
+    pub fn nterms(&self) -> (r: usize) ensures self.data.data.m@.dom().finite(), r == self.data.data.m@.dom().len(), r == self.data.data.ord@.len() { self.data.nterms() }
+
+    // delegate! any_term; From<(X, R)> (= Lc::from_iter([pair])): ASSUMED single-term constructors / accessors
+    //@expect pub fn any_term(&self) -> Option<(&X, &R)>;
+    #[verifier::external_body] pub fn any_term(&self) -> (r: Option<(&GenK, &ER)>)
+        ensures r.is_some() == (self.data.data.ord@.len() > 0), r.is_some() ==> (r.unwrap().0.k@ == self.data.data.ord@[0].0 && r.unwrap().1.v() == self.data.data.ord@[0].1) { unimplemented!() }
+    #[verifier::external_body] pub fn from_pair(pair: (GenK, ER)) -> (r: PolyBase)
+        ensures r.data.wf(), r.data.nz(), pair.1.v() != r0() ==> r.data.data.ord@ == seq![(pair.0.k@, pair.1.v())], pair.1.v() == r0() ==> r.data.data.ord@.len() == 0 { unimplemented!() }
+
+    /// Ring::is_unit / inv: a x^i is a unit iff both a and the monomial are, and then (a x^i)(a^-1 x^-i) = 1
+    pub fn is_unit(&self) -> (r: bool) requires self.data.nz()
+        ensures r == (self.data.data.ord@.len() == 1 && munit(self.data.data.ord@[0].0) && is_unit(self.data.data.ord@[0].1)),
+    //@body impl/Ring@PolyBase/is_unit
+    pub fn inv(&self) -> (r: Option<PolyBase>) requires self.data.nz()
+        ensures r.is_some() == (self.data.data.ord@.len() == 1 && munit(self.data.data.ord@[0].0) && is_unit(self.data.data.ord@[0].1)),
+            r.is_some() ==> forall|k: int| pprod(&self.data, &r.unwrap().data, k) == (if k == mone() { r1() } else { r0() }),
+    //@body impl/Ring@PolyBase/inv subst=Self::from:Self::from_pair
+    //@+ sig
+    //@| fn inv(&self) -> Option<Self>
+    //@+ after-let inv
+    //@| let (xk, av, yk, wv) = (x.k@, a.v(), xinv.k@, ainv.v());
+    //@| ax_ord(&self.data.data);
+    //@| if wv == r0() { id_mul_zero(av); ax_nontrivial(); }
+    //@| let ea = self.data.data.ord@; let eb = inv.data.data.ord@;
+    //@| assert forall|k: int| pprod(&self.data, &inv.data, k) == (if k == mone() { r1() } else { r0() }) by {
+    //@|     assert(dsum(ea, 0, eb, k) == r0());
+    //@|     assert(isum(r0(), xk, av, eb, 0, k) == r0());
+    //@|     ax_add_zero(rmul(av, wv));
+    //@| }
 
     //@expect pub fn iter(&self) -> impl Iterator<Item = (&X, &R)>;
     pub fn iter(&self) -> (r: MapIter<'_>) ensures r.pos@ == 0, r.es@ == self.data.data.ord@, entries_of(r.es@, self.data.data.m@), r.src == &self.data.data { self.data.iter() }
